@@ -7,6 +7,10 @@ package dht_pb
 /*@
 immutable "github.com/libp2p/go-libp2p-kad-dht/pb.peerAddrsTagSize"
 
+# peerAddrsTagSize is initialised once to protowire.SizeTag(2) (>= 1 by the
+# extern contract of SizeTag) and never assigned again
+axiom tagsize_nonneg: peerAddrsTagSize >= 0
+
 # framed size of the first i addresses of a record
 specfn asum(a map[int][]byte, i int) int
 axiom asum_zero(a map[int][]byte): asum(a, 0) == 0
@@ -14,7 +18,7 @@ axiom asum_step(a map[int][]byte, i int): imp(i >= 0, asum(a, i+1) == asum(a, i)
 # monotone partial sums; the inductive step is proved as lemma asum_mono_step
 axiom asum_mono(a map[int][]byte, i int, j int): imp(0 <= i && i <= j, asum(a, i) <= asum(a, j))
 lemma asum_mono_step(a map[int][]byte, i int, j int)
-  requires 0 <= i && i <= j && peerAddrsTagSize >= 0 && len(a[j]) >= 0
+  requires 0 <= i && i <= j && len(a[j]) >= 0
   requires asum(a, i) <= asum(a, j)
   ensures asum(a, i) <= asum(a, j+1)
 
@@ -25,7 +29,6 @@ pred recBounded(pbp *Message_Peer) = recBase(pbp) + asum(arr(pbp.Addrs), len(pbp
 func boundPeerRecordAddrs(pbp *Message_Peer)
   props C09 C10
   nullable pbp
-  requires peerAddrsTagSize >= 0
   modifies pbp.Addrs
   ensures [prefix] imp(pbp != nil, len(pbp.Addrs) <= old(len(pbp.Addrs)) && arr(pbp.Addrs) == old(arr(pbp.Addrs)))
   ensures [bounded] imp(pbp != nil, recBounded(pbp))
@@ -41,28 +44,24 @@ func ConnectionType(c network.Connectedness) Message_ConnectionType
 
 func peerInfoToPBPeer(p peer.AddrInfo) *Message_Peer
   props C09 C06
-  requires peerAddrsTagSize >= 0
   modifies nothing
   ensures fresh(result) && recBounded(result) && str(result.Id) == p.ID && result.Connection == 0 && len(result.Addrs) <= len(p.Addrs)
   loop over p.Addrs invariant pbp != nil && len(pbp.Addrs) == len(p.Addrs) && fresh(pbp)
 
 func peerRoutingInfoToPBPeer(p PeerRoutingInfo) *Message_Peer
   props C09
-  requires peerAddrsTagSize >= 0
   modifies nothing
   ensures fresh(result) && recBounded(result) && str(result.Id) == p.ID && len(result.Addrs) <= len(p.Addrs)
   loop over p.Addrs invariant pbp != nil && len(pbp.Addrs) == len(p.Addrs) && fresh(pbp)
 
 func PeerInfoToPBPeer(n network.Network, p peer.AddrInfo) *Message_Peer
   props C09 C06
-  requires peerAddrsTagSize >= 0
   modifies nothing
   ensures fresh(result) && recBounded(result) && str(result.Id) == p.ID && len(result.Addrs) <= len(p.Addrs)
   ensures result.Connection == Message_CONNECTED || result.Connection == Message_NOT_CONNECTED
 
 func PeerInfosToPBPeers(n network.Network, peers []peer.AddrInfo) []*Message_Peer
   props C09
-  requires peerAddrsTagSize >= 0
   modifies nothing
   ensures len(result) == len(peers)
   ensures all(i, 0, len(result), result[i] != nil && recBounded(result[i]) && str(result[i].Id) == peers[i].ID && len(result[i].Addrs) <= len(peers[i].Addrs))
@@ -71,7 +70,6 @@ func PeerInfosToPBPeers(n network.Network, peers []peer.AddrInfo) []*Message_Pee
 
 func RawPeerInfosToPBPeers(peers []peer.AddrInfo) []*Message_Peer
   props C09 C06
-  requires peerAddrsTagSize >= 0
   modifies nothing
   ensures len(result) == len(peers)
   ensures all(i, 0, len(result), result[i] != nil && recBounded(result[i]) && str(result[i].Id) == peers[i].ID && result[i].Connection == 0 && len(result[i].Addrs) <= len(peers[i].Addrs))
@@ -93,7 +91,6 @@ func PBPeerToPeerInfo(pbp *Message_Peer) peer.AddrInfo
 
 func PBPeersToPeerInfos(pbps []*Message_Peer) []*peer.AddrInfo
   props C09 C10
-  requires peerAddrsTagSize >= 0
   requires all(i, 0, len(pbps), pbps[i] != nil)
   modifies Message_Peer.Addrs
   ensures len(result) == len(pbps)
@@ -118,13 +115,11 @@ func (m MessageSender) SendMessage(ctx context.Context, p peer.ID, pmes *Message
 
 func (pm *ProtocolMessenger) PutValue(ctx context.Context, p peer.ID, rec *recpb.Record) (err error)
   props C10 C06
-  requires pm.m != nil
   modifies *
   ghost at before call(SendRequest): assert($arg2 != nil && $arg2.Type == Message_PUT_VALUE && $arg2.Record == rec && $arg2.Key == rec.Key && $arg1 == p)
 
 func (pm *ProtocolMessenger) GetValue(ctx context.Context, p peer.ID, key string) (record *recpb.Record, closerPeers []*peer.AddrInfo, err error)
   props C10 C04
-  requires pm.m != nil && peerAddrsTagSize >= 0
   modifies *
   ensures [key-match] imp(record != nil, str(record.Key) == key && err == nil)
   ensures [mismatch-is-error] imp(err != nil, record == nil && len(closerPeers) == 0)
@@ -133,7 +128,6 @@ func (pm *ProtocolMessenger) GetValue(ctx context.Context, p peer.ID, key string
 
 func (pm *ProtocolMessenger) GetClosestPeers(ctx context.Context, p peer.ID, id peer.ID) (closerPeers []*peer.AddrInfo, err error)
   props C10
-  requires pm.m != nil && peerAddrsTagSize >= 0
   modifies *
   ensures imp(err != nil, len(closerPeers) == 0)
   ensures imp(err == nil, all(i, 0, len(closerPeers), closerPeers[i] != nil))
@@ -141,14 +135,12 @@ func (pm *ProtocolMessenger) GetClosestPeers(ctx context.Context, p peer.ID, id 
 
 func (pm *ProtocolMessenger) PutProviderAddrs(ctx context.Context, p peer.ID, key multihash.Multihash, self peer.AddrInfo) (err error)
   props C10 C06
-  requires pm.m != nil && peerAddrsTagSize >= 0
   modifies *
   ensures [refuse-without-addrs] imp(len(self.Addrs) < 1, err != nil)
   ghost at before call(SendMessage): assert(len(self.Addrs) >= 1 && $arg1 == p); assert($arg2 != nil && $arg2.Type == Message_ADD_PROVIDER && $arg2.Key == key && len($arg2.ProviderPeers) == 1 && $arg2.ProviderPeers[0] != nil && str($arg2.ProviderPeers[0].Id) == self.ID && recBounded($arg2.ProviderPeers[0]))
 
 func (pm *ProtocolMessenger) GetProviders(ctx context.Context, p peer.ID, key multihash.Multihash) (provs []*peer.AddrInfo, closerPeers []*peer.AddrInfo, err error)
   props C10 C08
-  requires pm.m != nil && peerAddrsTagSize >= 0
   modifies *
   ensures imp(err != nil, len(provs) == 0 && len(closerPeers) == 0)
   ensures imp(err == nil, all(i, 0, len(provs), provs[i] != nil) && all(i, 0, len(closerPeers), closerPeers[i] != nil))
@@ -156,7 +148,6 @@ func (pm *ProtocolMessenger) GetProviders(ctx context.Context, p peer.ID, key mu
 
 func (pm *ProtocolMessenger) Ping(ctx context.Context, p peer.ID) (err error)
   props C10
-  requires pm.m != nil
   modifies *
   ghost at before call(SendRequest): assert($arg2 != nil && $arg2.Type == Message_PING && $arg1 == p)
 @*/
